@@ -27,6 +27,8 @@ struct Inner {
     status: Vec<Status>,
     /// label of the yield point each parked thread waits at
     at: Vec<&'static str>,
+    /// for a thread parked at "blocked": the lock-release count when it parked
+    blocked_at: Vec<u64>,
     abort: bool,
 }
 
@@ -46,6 +48,8 @@ pub fn install() {
         rbx_types::verif::set_yield_callback(Some(Arc::new(|pt: YieldPoint| {
             let label = match pt {
                 YieldPoint::StringCacheLock => "lock",
+                YieldPoint::StringCacheBlocked => "blocked",
+                YieldPoint::ArcOp => "arc",
                 YieldPoint::IndexOp => "atomic",
             };
             yield_here(label);
@@ -70,6 +74,7 @@ impl Sched {
                 running: None,
                 status: vec![Status::Parked; n],
                 at: vec!["start"; n],
+                blocked_at: vec![0; n],
                 abort: false,
             }),
             cv: Condvar::new(),
@@ -80,6 +85,9 @@ impl Sched {
         let mut g = self.inner.lock().unwrap();
         g.status[tid] = Status::Parked;
         g.at[tid] = label;
+        if label == "blocked" {
+            g.blocked_at[tid] = rbx_types::verif::lock_releases();
+        }
         g.running = None;
         self.cv.notify_all();
         while g.running != Some(tid) {
@@ -128,6 +136,8 @@ pub struct Execution<R> {
     pub points: Vec<ChoicePoint>,
     pub results: Vec<Option<R>>,
     pub deadlock: bool,
+    /// every unfinished thread waits for the intern-table lock, which its holder never releases
+    pub lock_deadlock: bool,
     pub panics: Vec<(usize, String)>,
     pub preemptions: usize,
     /// failures reported by the cut observer
@@ -170,6 +180,7 @@ pub fn run_once<R: Send + 'static>(
     let mut points: Vec<ChoicePoint> = Vec::new();
     let mut last: Option<usize> = None;
     let mut deadlock = false;
+    let mut lock_deadlock = false;
     let mut preemptions = 0usize;
     let mut cut_failures = Vec::new();
     loop {
@@ -190,8 +201,18 @@ pub fn run_once<R: Send + 'static>(
             sched.cv.notify_all();
             break;
         }
-        let enabled: Vec<usize> = (0..n).filter(|&i| g.status[i] == Status::Parked).collect();
+        let parked: Vec<usize> = (0..n).filter(|&i| g.status[i] == Status::Parked).collect();
+        if parked.is_empty() {
+            break;
+        }
+        // a thread that found the lock taken can only move once the lock has been released
+        let releases = rbx_types::verif::lock_releases();
+        let enabled: Vec<usize> = parked.iter().copied().filter(|&i| g.at[i] != "blocked" || g.blocked_at[i] != releases).collect();
         if enabled.is_empty() {
+            lock_deadlock = true;
+            deadlock = true;
+            g.abort = true;
+            sched.cv.notify_all();
             break;
         }
         drop(g);
@@ -263,6 +284,7 @@ pub fn run_once<R: Send + 'static>(
         points,
         results,
         deadlock,
+        lock_deadlock,
         panics,
         preemptions,
         cut_failures,
